@@ -218,6 +218,28 @@ func genCase(t *rapid.T) (Case, bool) {
 			}
 		}
 	}
+	if rapid.IntRange(0, 4).Draw(t, "cgo") == 0 {
+		// the cgo pseudo-import inside a parenthesised import declaration, at any position
+		var fn []string
+		for n := range c.Root {
+			fn = append(fn, n)
+		}
+		sort.Strings(fn)
+		for _, n := range fn {
+			src := c.Root[n]
+			i := strings.Index(src, "import (\n")
+			if i < 0 {
+				continue
+			}
+			j := i + strings.Index(src[i:], "\n)")
+			lines := strings.Split(src[i+len("import (\n"):j], "\n")
+			at := rapid.IntRange(0, len(lines)).Draw(t, "cgopos")
+			lines = append(lines[:at:at], append([]string{"\t\"C\""}, lines[at:]...)...)
+			c.Root[n] = src[:i] + "import (\n" + strings.Join(lines, "\n") + src[j:]
+			h.Label("cgo-import-inside-a-group")
+			nontrivial = true
+		}
+	}
 	for _, f := range p.Files {
 		for _, im := range f.Imports {
 			if im.Alias == "." {
